@@ -19,15 +19,19 @@ from ..model import cap, tls
 PROP = "C18"
 LEVEL = "exploration"
 
-CORPUS = ["quic_default", "quic_zero_ccid", "quic_prefix_cids", "quic_ncid", "quic_two", "tls12", "tls12_b", "tls13_v6", "tls13_b", "mixed"]
+CORPUS = ["quic_default", "quic_zero_ccid", "quic_prefix_cids", "quic_ncid", "quic_two", "tls12", "tls12_b", "tls13_v6", "tls13_b", "mixed",
+          "quic_dup_initial", "quic_vn", "tls12_retransmissions"]
+# quic_dup_initial: the client's first Initial datagram was captured twice (its CRYPTO frame is seen again after it was consumed);
+# quic_vn: a Version Negotiation datagram from the server's address follows the client's first Initial;
+# tls12_retransmissions: every third data segment is captured twice
 
 
 def describe(tier):
     S = 128 if tier == "quick" else 2048
     return {
-        "rule": f"H: 10 scenarios x (every iteration order of the scenario's connection-ID set realised by a hash seed in 0..{S - 1}, "
+        "rule": f"H: {len(CORPUS)} scenarios (incl. a duplicated Initial, a Version Negotiation datagram, TCP retransmissions) x (every iteration order of the scenario's connection-ID set realised by a hash seed in 0..{S - 1}, "
                 "one witness seed each) x cwd in {/, temp, /repo} x 5 environments, through `python -m tlexport.main` in fresh "
-                "processes; R: all 100 ordered pairs (A,B) of corpus entries run back to back in one interpreter without state "
+                "processes, plus two runs with -a; R: all ordered pairs (A,B) of corpus entries, without and with -a, run back to back in one interpreter without state "
                 "restoration. non-trivial: a run whose output holds data and equals the reference hash; distinct = distinct "
                 "(scenario, seed/cwd/env) or pair",
         "exhaustive": True,
@@ -56,6 +60,22 @@ def scenario(name, seed):
     elif name == "quic_two":
         flows.append(scen.quic_flow({"ccid_len": 0}, seed, 0))
         flows.append(scen.quic_flow({"suite": 0x1303, "ccid_len": 1, "scid_len": 1}, seed, 1))
+    elif name in ("quic_dup_initial", "quic_vn"):
+        f = scen.quic_flow({"suite": 0x1302}, seed, 0, key=(name,))
+        if name == "quic_dup_initial":
+            f.pkts.insert(1, f.pkts[0].copy())
+        else:
+            c = f.conn
+            vn = bytes([0x8A]) + bytes(4) + bytes([len(c.ccid)]) + c.ccid + bytes([len(c.odcid)]) + c.odcid + \
+                bytes.fromhex("00000001") + bytes.fromhex("6b3343cf") + bytes.fromhex("1a2a3a4a")
+            f.pkts.insert(1, cap.Pkt(0, "s", "udp", vn))
+        flows.append(f)
+    elif name == "tls12_retransmissions":
+        f = scen.tls_flow({"version": tls.TLS12, "suite": 0x009C, "history": [("c", 200), ("s", 900), ("c", 50)]}, seed, 0, mss=300, key=("rt",))
+        idx = [i for i, p in enumerate(f.pkts) if p.payload]
+        for i in idx[::3][::-1]:
+            f.pkts.insert(min(len(f.pkts), i + 2), f.pkts[i].copy())
+        flows.append(f)
     elif name == "tls12":
         flows.append(scen.tls_flow({"version": tls.TLS12, "suite": 0xC02F}, seed, 0))
     elif name == "tls12_b":
@@ -155,6 +175,17 @@ def run_case(case):
                 os.rmdir(tmpd)
             except OSError:
                 pass
+        # the same with metadata export: two fresh processes (different hash seeds, the second started later) must agree
+        ra = harness.run_cli(data, kl, args=["-a"], hashseed="0")
+        rb = harness.run_cli(data, kl, args=["-a"], hashseed="3", cwd="/")
+        n += 2
+        sa = {"scenario": name, "args": "-a"}
+        if not ra.ok or not rb.ok or ra.out is None or rb.out is None:
+            fails.append({"kind": "cli_run_failed", "sig": sa, "detail": (ra.status + ra.detail[-200:]) if not ra.ok else (rb.status + rb.detail[-200:])})
+        elif ra.out != rb.out:
+            fails.append({"kind": "output_differs_between_runs", "sig": sa, "detail": f"two runs with -a wrote different files ({len(ra.out)} / {len(rb.out)} bytes)"})
+        else:
+            nontriv.append(engine.jhash(sa))
         # in-process run must equal the CLI run (driver equivalence)
         inp = harness.run_tlexport(data, kl)
         n += 1
@@ -165,16 +196,16 @@ def run_case(case):
     else:
         a = case["first"]
         da, ka, _ = scenario(a, seed)
-        for b in CORPUS:
+        for b, args in [(b, args) for b in CORPUS for args in ((), ("-a",))]:
             db, kb, _ = scenario(b, seed)
-            fresh = harness.run_tlexport(db, kb)                       # reference: state restored by the harness
+            fresh = harness.run_tlexport(db, kb, args)                 # reference: state restored by the harness
             harness.reset_state()
-            r1 = harness.run_tlexport(da, ka, reset=False)
-            r2 = harness.run_tlexport(db, kb, reset=False, keep_output=True)   # no restoration between the two runs: module state,
+            r1 = harness.run_tlexport(da, ka, args, reset=False)
+            r2 = harness.run_tlexport(db, kb, args, reset=False, keep_output=True)   # no restoration between the two runs: module state,
             #                                                                   class state and the first run's output file stay
             harness.reset_state()
             n += 3
-            sig = {"first": a, "second": b}
+            sig = {"first": a, "second": b, "args": " ".join(args)}
             if not r2.ok:
                 fails.append({"kind": "second_run_failed", "sig": sig, "detail": r2.status + r2.detail[-300:]})
             elif r2.out != fresh.out:
